@@ -42,6 +42,12 @@ def vcopy(a):
     return copy.deepcopy(a)
 
 
+def _align(*arrs):
+    """an empty (shape-less) DyadCarrier densifies to a (0, 0) array: read it as the zero matrix of the others' shape"""
+    shp = next((a.shape for a in arrs if a.size), None)
+    return [np.zeros(shp, dtype=a.dtype) if (shp is not None and a.size == 0) else a for a in arrs]
+
+
 def todense(a):
     if isinstance(a, DyadCarrier):
         return a.todense()
@@ -208,11 +214,12 @@ def warm_up(case, rng, m, sigs):
     """a response (and sometimes a seeded sensitivity + reset) at ANOTHER admissible point before the tested one, so that
     caches and documented memories are not in their initial state"""
     base = [vcopy(sg.state) for sg in sigs]
-    if rng.random() < 0.6:
+    full = getattr(case, "warm_full", False)   # components with per-mode / per-column caches: always warm them completely
+    if full or rng.random() < 0.6:
         _set_states(sigs, admissible_point(case, rng, base))
         m.response()
-        if rng.random() < 0.5:
-            seeds = _make_seeds(rng, m, case, partial=True)
+        if full or rng.random() < 0.5:
+            seeds = [rand_like(rng, so.state) for so in m.sig_out] if full else _make_seeds(rng, m, case, partial=True)
             for so, w in zip(m.sig_out, seeds):
                 if w is not None:
                     so.sensitivity = vcopy(w)
@@ -312,6 +319,17 @@ def linearity_oracle(case, rng):
     y0 = [vcopy(s.state) for s in m.sig_out]
     w1 = _make_seeds(rng, m, case, partial=False)
     w2 = _make_seeds(rng, m, case, partial=False)
+    # complementary structure: a column that is un-seeded in the first passes and seeded in a later one
+    for j, (u, v) in enumerate(zip(w1, w2)):
+        if isinstance(u, np.ndarray) and u.ndim >= 1 and u.shape[-1] >= 2 and rng.random() < 0.5:
+            col = int(rng.integers(0, u.shape[-1]))
+            u = u.copy()
+            u[..., col] = 0
+            w1[j] = u
+            if isinstance(v, np.ndarray) and not np.any(v[..., col]):
+                v = v.copy()
+                v[..., col] = rng.standard_normal(v[..., col].shape)
+                w2[j] = v
     a, b = 0.5 * float(rng.integers(-4, 5) or 1), 0.25 * float(rng.integers(-8, 9) or 3)
 
     def comb(u, v):
@@ -344,21 +362,59 @@ def linearity_oracle(case, rng):
             continue
         if u is None or v is None:
             return f"{case.name}: second sensitivity() call changes None-ness of input {i}"
-        U, V = todense(u), todense(v)
+        U, V = _align(todense(u), todense(v))
         sc = max(maxabs(U), 1e-300)
         if not np.allclose(V, 2 * U, rtol=1e-9, atol=1e-12 * sc):
             return f"{case.name}: calling sensitivity() twice does not add the same contribution twice (input {i}: max|g2-2g1| = {np.max(np.abs(V - 2 * U)):.3e})"
     g2, _ = run(w2)
+    # accumulation of two DIFFERENT seeds without reset = sum of the single contributions
+    m.reset()
+    for wk in (w1, w2):
+        for so, w in zip(m.sig_out, wk):
+            so.sensitivity = vcopy(w)
+        m.sensitivity()
+    gacc = [vcopy(s.sensitivity) for s in sigs]
+    # the combined seed is evaluated in a NEW response cycle on the same inputs (response() must not matter)
+    m.reset()
+    if not getattr(case, "response_memory", False):
+        m.response()
+        for s, x in zip(sigs, x0):
+            if not same(s.state, x):
+                return f"{case.name}: a second response() changed the state of input '{s.tag}'"
+        y0 = [vcopy(s.state) for s in m.sig_out]   # (an iterative eigensolver may return the outputs to tolerance only)
     g12, _ = run([comb(u, v) for u, v in zip(w1, w2)])
+    for i, (u, v, uv) in enumerate(zip(g1, g2, gacc)):
+        if u is None and v is None and uv is None:
+            continue
+        if u is None or v is None or uv is None:
+            return f"{case.name}: None sensitivities inconsistent for input {i} when accumulating two seeds"
+        U, V, UV = _align(todense(u), todense(v), todense(uv))
+        sc = max(maxabs(U) + maxabs(V), 1e-300)
+        if not np.allclose(UV, U + V, rtol=1e-8, atol=1e-10 * sc):
+            return (f"{case.name}: two sensitivity() calls with seeds w1, w2 (no reset) do not accumulate g1 + g2 "
+                    f"(input {i}: max deviation {np.max(np.abs(UV - U - V)):.3e}, scale {sc:.3e})")
     for i, (u, v, uv) in enumerate(zip(g1, g2, g12)):
         if u is None and v is None and uv is None:
             continue
         if u is None or v is None or uv is None:
             return f"{case.name}: None sensitivities inconsistent for input {i}"
-        U, V, UV = todense(u), todense(v), todense(uv)
+        U, V, UV = _align(todense(u), todense(v), todense(uv))
         sc = max(maxabs(U) * abs(a) + maxabs(V) * abs(b), 1e-300)
         if not np.allclose(UV, a * U + b * V, rtol=1e-8, atol=1e-10 * sc):
             return f"{case.name}: sensitivity is not linear in the seed (input {i}: max deviation {np.max(np.abs(UV - a * U - b * V)):.3e}, scale {sc:.3e})"
+    # linearity for ALL scalars: a seed scaled by a very small factor gives the equally scaled sensitivity
+    tiny = 2.0 ** -40
+    gt, _ = run([tiny * u for u in w1])
+    for i, (u, ut) in enumerate(zip(g1, gt)):
+        if u is None and ut is None:
+            continue
+        if u is None or ut is None:
+            return f"{case.name}: sensitivity for the seed scaled by 2^-40 is None-inconsistent for input {i}"
+        U, UT = _align(todense(u), todense(ut))
+        sc = max(maxabs(U), 1e-300)
+        if not np.allclose(UT, tiny * U, rtol=1e-7, atol=1e-9 * tiny * sc):
+            return (f"{case.name}: sensitivity is not linear in the seed for a small factor (input {i}: seed scaled by 2^-40 gives "
+                    f"max|g| = {maxabs(UT):.3e}, expected {tiny * sc:.3e})")
     m.reset()
     for s, x in zip(sigs, x0):
         if not same(s.state, x):
@@ -693,8 +749,10 @@ def gen_aggregation(rng):
         if m.active_set is not None:
             m.active_set = lambda xx, sel=sel: sel
 
-    return Case(f"Aggregation.{kind}.n{n}.par{par}.{'sc' if 'scaling' in kw else ''}{'as' if 'active_set' in kw else ''}",
-                make, affine=False, freeze=freeze, smooth_tol=2e-6, clip=(0.05, 10.0))
+    c = Case(f"Aggregation.{kind}.n{n}.par{par}.{'sc' if 'scaling' in kw else ''}{'as' if 'active_set' in kw else ''}",
+             make, affine=False, freeze=freeze, smooth_tol=2e-6, clip=(0.05, 10.0))
+    c.response_memory = "scaling" in kw   # documented: a damped scale factor moves on every response(), also on the same input
+    return c
 
 
 def gen_scaling(rng):
@@ -918,6 +976,7 @@ def gen_eigensolve_sparse(rng, real_only=True):
 
     c = Case(f"EigenSolve.sparse.n{n}.{'c' if cplx else 'r'}.{'gen' if gen else 'std'}.k{nmodes}", make, affine=False,
              dirs=dirs, smooth_tol=5e-5, hist_scale=0.02)
+    c.warm_full = True
     return c
 
 
